@@ -52,6 +52,8 @@ KINDS = ['assign', 'print', 'print2', 'expr', 'printexpr', 'none', 'multi', 'com
 MORE_KINDS = ['await_expr', 'unawaited_coro', 'esc_literal', 'annotated_def', 'augassign', 'for', 'while', 'with', 'try', 'decodef', 'class', 'literal_comment', 'triple', 'triple_unprefixed', 'triple_blank', 'triple_unprefixed_blank', 'bracket_blank', 'triple_trailing_ws', 'triple_late_unprefixed', 'triple_dots_body', 'sep_literal',
               'import', 'comment', 'async_await', 'async_for', 'async_with']
 ALL_KINDS = KINDS + MORE_KINDS
+TERMINATED_KINDS = ('compound', 'for', 'while', 'with', 'def', 'print', 'assign', 'multi', 'expr', 'try')
+TAGWORDS = ['Returns:', 'Args:', 'Note:', 'Raises::', 'Example:', 'Yields:', 'Todo:', 'Returns: ']
 
 
 DISABLE_LIKE = ['failing inputs are rejected before statement', 'script-style usage of statement', 'unstable on purpose: statement',
@@ -71,6 +73,12 @@ class Stmt:
             self.lines = ["print('o%da', t(%d))" % (k, k)]
             self.out = 'o%da %d\n' % (k, k)
             self.is_expr = True       # a call expression whose value is None
+        elif kind == 'print_tagword':
+            # (not in ALL_KINDS: used where named) output that reads like a section heading of a google-style docstring
+            word = TAGWORDS[k % len(TAGWORDS)]
+            self.lines = ["print(t(%d) and '%s')" % (k, word)]
+            self.out = word + '\n'
+            self.is_expr = True
         elif kind == 'print2':
             self.lines = ["print('o%da\\no%db %%d' %% t(%d))" % (k, k, k)]
             self.out = 'o%da\no%db %d\n' % (k, k, k)
@@ -372,7 +380,7 @@ def gen_program(rng, n=None, kinds=None):
     return [Stmt(rng.choice(kinds), 10 + i) for i in range(n)]
 
 
-def render_layout(rng, stmts, want_prob=0.6, allow_prose=True, google=None, vary_indent=True):
+def render_layout(rng, stmts, want_prob=0.6, allow_prose=True, google=None, vary_indent=True, terminators=False):
     """a well formed docstring holding the program: prompt style, indentation, wants (correct by
     construction), blank lines and prose between statements.  Returns (text, wants: {stmt index: text})"""
     style = rng.choice(['ps1', 'ps2', 'ps2'])
@@ -400,6 +408,10 @@ def render_layout(rng, stmts, want_prob=0.6, allow_prose=True, google=None, vary
             # (deeper or shallower); inside a google block it stays inside the block
             indent = rng.choice([4, 6, 8] if google else [0, 2, 4, 8])
         lines += s.render(style, indent)
+        if terminators and style == 'ps2' and s.kind in TERMINATED_KINDS and rng.random() < 0.5:
+            # the way an interactive session closes a block (and some authors any statement): an empty continuation line
+            # in front of the output / the next statement.  It is a source line of that statement
+            lines.append(' ' * indent + '...')
         prev = 'src'
         cw = correct_wants(stmts, lo, j)
         if s.kind == 'triple_late_unprefixed' and style == 'ps1':
